@@ -20,7 +20,10 @@ import (
 	"strings"
 )
 
-func init() { register("c04", genC04) }
+func init() {
+	register("c04", genC04)
+	register("c04facts", genC04Facts)
+}
 
 type c04Pkg struct {
 	files  map[string]*ast.File
@@ -319,24 +322,12 @@ func genC04(repo string) (string, string, error) {
 			return "", "", fmt.Errorf("%s: %v", q.dir, err)
 		}
 		fmt.Fprintf(&sb, "Definition %s_Magic : list N := %s.\n", q.prefix, c04Bytes(mg))
-		// largest key length accepted by Insert / writeTuple (None: no check in the code)
-		kl, ok := p.upperBound(p.fn("Builder", "Insert"), c04IsLenOf("key"))
-		if !ok {
-			kl, ok = p.upperBound(p.fn("tempBucket", "writeTuple"), c04IsLenOf("key"))
-		}
-		fmt.Fprintf(&sb, "Definition %s_insert_max_key_length : option N := %s.\n", q.prefix, c04Opt(kl, ok))
 		if q.prefix == "sized" {
 			hs, err := p.constant("HashSize")
 			if err != nil {
 				return "", "", fmt.Errorf("%s: %v", q.dir, err)
 			}
 			fmt.Fprintf(&sb, "Definition sized_HashSize : N := %d%%N.\n", hs)
-			nb := p.fn("", "NewBuilderSized")
-			if nb == nil {
-				return "", "", fmt.Errorf("NewBuilderSized not found")
-			}
-			mv, ok := p.upperBound(nb, c04IsIdent("valueSizeBytes"))
-			fmt.Fprintf(&sb, "Definition sized_builder_max_value_size : option N := %s.\n", c04Opt(mv, ok))
 		} else {
 			hsz, err := p.constant("headerSize")
 			if err != nil {
@@ -372,4 +363,38 @@ func genC04(repo string) (string, string, error) {
 		fmt.Fprintf(&sb, "Definition indexmeta_%s : N := %d%%N.\n", n, v)
 	}
 	return "ConstsC04.v", sb.String(), nil
+}
+
+// genC04Facts: facts about the builders' input validation, kept in a file of their own (FactsC04.v) so that
+// applying or reverting the repair does not invalidate the compiled proofs, which do not depend on them:
+// the largest value size NewBuilderSized accepts and the largest key length Insert accepts (None = no check).
+func genC04Facts(repo string) (string, string, error) {
+	var sb strings.Builder
+	sb.WriteString(coqHeader("C04: input-validation facts of the compact-index builders (information; the theorems are about the repaired builder)."))
+	for _, q := range []struct{ prefix, dir string }{{"sized", "compactindexsized"}, {"legacy8", "deprecated/compactindex"}, {"legacy36", "deprecated/compactindex36"}} {
+		p, err := c04Load(repo, q.dir)
+		if err != nil {
+			return "", "", err
+		}
+		ins := p.fn("Builder", "Insert")
+		if ins == nil {
+			return "", "", fmt.Errorf("%s: Builder.Insert not found", q.dir)
+		}
+		kl, ok := p.upperBound(ins, c04IsLenOf("key"))
+		if !ok {
+			kl, ok = p.upperBound(p.fn("tempBucket", "writeTuple"), c04IsLenOf("key"))
+		}
+		fmt.Fprintf(&sb, "Definition %s_insert_max_key_length : option N := %s.\n", q.prefix, c04Opt(kl, ok))
+		if q.prefix == "sized" {
+			nb := p.fn("", "NewBuilderSized")
+			if nb == nil {
+				return "", "", fmt.Errorf("NewBuilderSized not found")
+			}
+			mv, ok := p.upperBound(nb, c04IsIdent("valueSizeBytes"))
+			fmt.Fprintf(&sb, "Definition sized_builder_max_value_size : option N := %s.\n", c04Opt(mv, ok))
+		}
+	}
+	sb.WriteString("(* true when the code has both range checks of fixes/C04-*.diff *)\n")
+	sb.WriteString("Definition builders_have_c04_repairs : bool :=\n  match sized_builder_max_value_size, sized_insert_max_key_length, legacy8_insert_max_key_length, legacy36_insert_max_key_length with\n  | Some v, Some a, Some b, Some c => (v <=? 252)%N && (a <=? 65535)%N && (b <=? 65535)%N && (c <=? 65535)%N\n  | _, _, _, _ => false\n  end.\n")
+	return "FactsC04.v", sb.String(), nil
 }
